@@ -175,6 +175,8 @@ class Walker:
         self.frames = []
         self.guard_counter = 0
         self.opaque_counter = 0
+        # boolean fields assigned so far: place term -> [(assigned formula, pc of the assignment)]
+        self.store = {}
 
     # ------------------------------------------------------------ plumbing
     @property
@@ -600,7 +602,12 @@ class Walker:
         else:
             r = self.field_of(v, f)
         if self.is_bool(n) and r[0] not in (BOOL, 'ite'):
+            place = r
             r = mk_bool(Atom(('flag', r)))
+            # a read after an assignment to the same place sees the assigned value on the paths
+            # that went through the assignment (atoms denote the value before the assignment)
+            for (val, apc) in self.store.get(place, ()):
+                r = mk_ite(apc, mk_bool(val), r)
         elif self.is_bool(n) and r[0] == 'ite':
             r = mk_bool(as_formula(_boolify(r)))
         return r, c
@@ -674,6 +681,8 @@ class Walker:
         rv, rc = self.ev(n['r'], pc)
         lv, lc = self.ev_place(n['l'], And(pc, rc))
         self.emit('assign', n, pc, lhs=lv, rhs=rv, lhs_node=n['l'])
+        if self.tystr(n['l']) == 'bool' and lv[0] == 'field':
+            self.store.setdefault(lv, []).append((as_formula(rv), pc))
         return ('unit',), And(rc, lc)
 
     def ev_AssignOp(self, n, pc):
